@@ -105,12 +105,12 @@ Section Probe.
       { rewrite A10. destruct (c_maxcache (conf s) =? 0)%Z; [reflexivity|]. cbn [lookup].
         apply key_eqb_neq in Hne. rewrite Hne. reflexivity. }
       pose proof (cache_get_ff s1 t A3) as Hg2. rewrite Hct, A2, Ht in Hg2. destruct Hg2 as (es2 & _ & Hg2).
-      assert (Hfo : follow (S (N.to_nat (supply s1))) s1 o =
-                    (loaded s1 t rt es2, Ok (length (heap s1)))).
+      assert (Hfo : follow (S (N.to_nat (supply s1))) s1 o k =
+                    (loaded s1 t rt es2, Ok (length (heap s1), t))).
       { cbn [follow]. rewrite H1. cbn [o_rec]. rewrite Hrk, Hg2.
         pose proof (loaded_hget s1 t rt es2 F1) as H2.
         destruct (N.to_nat (supply s1)); cbn [follow]; rewrite H2; cbn [o_rec]; rewrite Hrt; reflexivity. }
-      rewrite Hfo. pose proof (loaded_hget s1 t rt es2 F1) as H2. rewrite H2.
+      rewrite Hfo. pose proof (loaded_hget s1 t rt es2 F1) as H2.
       do 4 eexists. split; [reflexivity|]. rewrite hget_hupd, Nat.eqb_refl, H2. split; [reflexivity|].
       cbn [o_rec]. split; [unfold upd_req; exact Hrt | apply F_upd; exact HF].
     - injection Hres as <- <-.
